@@ -104,11 +104,6 @@ theorem chain_degree_to_freq (e : Ev) (m h d : Rat) (hf : e.get? "freq" = none) 
 
 /-! ## Playing one note event -/
 
-/-- Names in a parameter list `[name, value, name, value, …]`. -/
-def paramNames : List Arg → List String
-  | .s n :: _ :: r => n :: paramNames r
-  | _ => []
-
 /-- The parameters sent are exactly the instrument's controls that the event defines (plus `freq`,
     which `play` always defines), in the order of the description, each once. -/
 theorem msg_params_names (d : Desc) (e : Ev) (fq : Sym) (ps : List Arg)
@@ -345,6 +340,66 @@ theorem replay_ids_fresh (w : World) (e : Ev) (t : Rat) (ds : List Rat) :
         have : w'.nextId - w.nextId = (w'.nextId - (w.nextId + 1)) + 1 := by omega
         rw [this, List.range'_succ]
         simp
+
+/-! ## Pmono -/
+
+/-- While a Pmono (articulate = false) holds its synth no further node is created, and every command
+    it sends — the updates and the final release — addresses that one node. -/
+theorem mono_held_single_node (inst : String) (w : World) (h : Held) (es : List Ev) : ∀ (t : Rat),
+    (playMono inst w t (some h) es).2.1 = w ∧
+    ∀ m ∈ (playMono inst w t (some h) es).1, m.args.head? = some (.n (.q h.id)) := by
+  induction es with
+  | nil =>
+    intro t
+    refine ⟨by simp [playMono], ?_⟩
+    intro m hm
+    simp only [playMono, offMsg, List.mem_singleton] at hm
+    subst hm
+    split <;> rfl
+  | cons e es ih =>
+    intro t
+    by_cases hr : e.isRest = true
+    · cases hd : e.delta with
+      | none => simp [playMono, hr, hd]
+      | some d => simp only [playMono, hr, hd, if_true]; exact ih (t + d)
+    · cases hs : setMsg w t e h with
+      | none => simp [playMono, hr, hs]
+      | some m0 =>
+        have hm0 : m0.args.head? = some (.n (.q h.id)) := by
+          unfold setMsg at hs
+          cases hf : e.detunedFreq with
+          | none => simp [hf] at hs
+          | some fq =>
+            cases ha : setArgs e fq h.names with
+            | none => simp [hf, ha] at hs
+            | some args => simp [hf, ha] at hs; subst hs; rfl
+        cases hd : e.delta with
+        | none =>
+          simp only [playMono, hr, hs, hd]
+          exact ⟨rfl, by intro m hm; simp at hm; subst hm; exact hm0⟩
+        | some d =>
+          obtain ⟨ih1, ih2⟩ := ih (t + d)
+          simp only [playMono, hr, hs, hd, Bool.false_eq_true, if_false]
+          refine ⟨ih1, ?_⟩
+          intro m hm
+          rcases List.mem_cons.mp hm with rfl | hm'
+          · exact hm0
+          · exact ih2 m hm'
+
+/-- Pmono (articulate = false): the whole pattern is ONE synth — the first event allocates exactly one
+    node id and sends its `/s_new`; nothing else ever allocates. -/
+theorem mono_one_synth (inst : String) (w : World) (t : Rat) (e : Ev) (es : List Ev)
+    (r : String × Bool × List Arg × Rat × Rat) (hp : notePrep w (e.set "instrument" (.str inst)) = some r) :
+    (playMono inst w t none (e :: es)).2.1.nextId = w.nextId + 1 := by
+  obtain ⟨i, hasGate, params, action, group⟩ := r
+  simp only [playMono, hp]
+  cases hd : (e.set "instrument" (.str inst)).delta with
+  | none => rfl
+  | some d =>
+    simp only
+    have := (mono_held_single_node inst { w with nextId := w.nextId + 1 }
+      ⟨w.nextId, paramNames params, hasGate⟩ es (t + d)).1
+    rw [this]
 
 /-! ## Parallel and duration-limiting patterns -/
 
